@@ -10,9 +10,11 @@ from uvlib import BrokenTie, VERIF
 from checks import enginelib as E
 from checks.enginelib import charts, shrink
 
-THEOREMS = []
-FINISH = {"level": "exploration"}   # upgraded to "proof" once the theorems of Properties/C01.lean are in place
-LEAN_FILES = ["UscxmlVerif.Properties.C01"]
+THEOREMS = [
+    ("UscxmlVerif.Properties.C01.selection_conflict_free_partial", "proved", "PARTIAL (pre-emption only): for every chart, configuration, event and condition outcome the set of transitions LargeMicroStep selects holds no two distinct transitions with overlapping exit-set intervals. That the step as a whole is Appendix D's is decided by exploration (I = M = S on generated charts)"),
+]
+FINISH = {"level": "exploration"}   # the refinement Large ⊑ Appendix D is not proved
+LEAN_FILES = ["UscxmlVerif.Properties.C01", "UscxmlVerif.Proofs.Select"]
 SUITE = "trace-large"
 
 
